@@ -1,4 +1,5 @@
 """C14 — sender and receiver agree on reset versus incremental update (DESIGN §3 C14)."""
+import itertools
 from ..core import sym, tables as T, orderenum as oe
 from ..core.anchors import where
 from ..roles import Roles, NS
@@ -45,6 +46,7 @@ def run(ctx):
     from . import c01
     c01.r01_1(ctx, rep, roles, snd)
     ctx.report.rules[-1].id = "R14.4(R01.1)"
+    r14_5(ctx, rep, adm)
 
 
 # ------------------------------------------------------------------------- R14.1
@@ -333,4 +335,28 @@ def r14_3(ctx, rep, snd, adm, app, K, P="C14"):
                        evaluations=n // len(names), sample=desc + ": holds on all orderings")
     rep.count("orderings x truncation points", n)
     rep.count("distinct (status, header-only, rg<sg, rm<sg) classes", len(classes))
+    rep.instance(n)
+
+
+# ------------------------------------------------------------------------- R14.5
+def r14_5(ctx, rep, adm, P="C14", rule="R14.5"):
+    r = rep.rule(rule, "gap-free admission: an admitted incremental delta starts at or below the copy's max version; an admitted reset "
+                       "delta starts at 0 — for every ordering of (copy gc/max, delta from/gc/max), including stale and reordered deltas")
+    K = 5
+    n = 0
+    bad = {}
+    for rg, rm, frm, dg, dm in itertools.product(range(K + 1), repeat=5):
+        n += 1
+        st = adm.status(rg, rm, frm, dg, dm)
+        if st == "Apply" and frm > rm:
+            bad.setdefault("apply-with-gap", (rg, rm, frm, dg, dm))
+        if st == "ApplyAfterReset" and frm != 0:
+            bad.setdefault("reset-not-from-zero", (rg, rm, frm, dg, dm))
+    for k in ("apply-with-gap", "reset-not-from-zero"):
+        w = bad.get(k)
+        rep.obligation(w is None, "%s/%s/%s" % (P, rule, k),
+                       "the receiver admits a delta that leaves a hole between what it holds and what the delta carries: (rg,rm,from,dg,dm)=%s" % (w,),
+                       where(adm.fn), witness=list(w) if w else None, evaluations=n // 2,
+                       sample="%s never happens on the grid 0..%d^5" % (k, K))
+    rep.count("orderings", n)
     rep.instance(n)
